@@ -9,7 +9,9 @@ import (
 	"encoding/hex"
 	"encoding/json"
 	"fmt"
+	"math"
 	"sort"
+	"strconv"
 	"strings"
 	"unicode/utf8"
 
@@ -623,6 +625,21 @@ func runBars(c Case, rep *report) {
 	if c.Cfg.Stacked {
 		fam = "bars-stacked"
 	}
+	if prefix == 1 {
+		// the key line above the bars: "for any aggregated state": it lists the
+		// sub-keys of the state the final render drew, in the order of the
+		// segments / grouped bars, each behind its key glyph
+		var sb strings.Builder
+		for i, sk := range subKeys {
+			if i > 0 {
+				sb.WriteString("  ")
+			}
+			sb.WriteString(visible(termunicode.BarKey(i)) + " " + visible(sk))
+		}
+		if got := strings.TrimLeft(visible(vt.Get(0)), " "); got != sb.String() {
+			rep.fail("C14/"+fam+"/key-line-does-not-list-the-sub-keys", "line 0 shows %q, the sub-keys of the rendered state are %q: want %q", got, subKeys, sb.String())
+		}
+	}
 	var pts []monoPoint
 	var mmt mmTracker
 	for idx, row := range rows {
@@ -1014,6 +1031,7 @@ func runHeatmap(c Case, rep *report) {
 	} else if strings.HasSuffix(hdr, " more)") && !colNameEndsWithMore(cols) {
 		rep.fail("C14/heatmap/cols-more-note", "header %q has a more-note although all %d columns are shown", hdr, len(cols))
 	}
+	checkHeatLegend(rep, c, vt, counter, cols, colCount)
 	if c.Diff {
 		diffFresh(rep, "heatmap", vt, func(ft *recTerm) {
 			w2 := termrenderers.NewHeatmap(ft, c.Cfg.Rows, c.Cfg.Cols)
@@ -1033,6 +1051,191 @@ func runHeatmap(c Case, rep *report) {
 	rep.outcome = append(rep.outcome, hdr)
 	if len(rep.findings) > 0 {
 		rep.findings[0].detail += "\nscreen:\n" + fmtLines(screen(vt))
+	}
+}
+
+// ---- the heatmap's scale legend (line 0)
+
+// legendEntry: one "cell number" pair of the legend.
+type legendEntry struct {
+	tok    string // the number as displayed
+	val    int64  // the value the number stands for under the chosen formatter
+	mn, mx int64  // expression formatter: the (min, max) it was given
+	idx    int    // palette / glyph index of the cell (-1: not decodable)
+}
+
+// parseHi reads a number printed by the default formatter (humanize.Hi) back.
+func parseHi(tok string) (int64, bool) {
+	v, err := strconv.ParseInt(strings.ReplaceAll(tok, ",", ""), 10, 64)
+	return v, err == nil && humanize.Hi(v) == tok
+}
+
+// legendTopRepresentable: the legend's last value is the upper end of the
+// scale (linear: the maximum; log scales: the next power of the base at or
+// above it). Where that number does not fit into int64 there is no legend value
+// to judge (recorded in FINDINGS.md "Not reported": legend values are not
+// aggregated numbers); only the format of the legend's numbers is judged then.
+func legendTopRepresentable(scale string, emin, emax int64) bool {
+	hi := emax
+	if emax <= emin { // a degenerate range is drawn as [min, min+1]
+		if emin == math.MaxInt64 {
+			return false
+		}
+		hi = emin + 1
+	}
+	switch scale {
+	case "log2":
+		return float64(hi) <= 0x1p62
+	case "log10":
+		return float64(hi) <= 1e18
+	}
+	return float64(hi) < 0x1p63
+}
+
+// checkHeatLegend judges line 0 of a heatmap as it stands after the final
+// render: "indent, then 'cell number' pairs separated by four blanks".
+//   - "displayed numbers equal the aggregated numbers under the chosen
+//     formatter": every number of the legend is a rendering of an integer by the
+//     CHOSEN formatter (--format), given the range the cells are scaled with
+//     (the fixed bounds where given, else the table's minimum / maximum);
+//   - "Scaled magnitudes ... are monotone in the value": the legend's values
+//     never decrease from left to right and neither do its cells; the legend
+//     brackets the range (first <= minimum - for a log scale everything <= 1 is
+//     one position -, last >= maximum);
+//   - the legend is a legend: the cell it shows next to value v is the cell the
+//     renderer draws for a table cell of value v under the same --scale and
+//     range (decided by the real renderer on a probe table holding exactly the
+//     legend's values);
+//   - legend and column header of the same frame start in the same column.
+func checkHeatLegend(rep *report, c Case, vt *recTerm, counter *aggregation.TableAggregator, cols []string, colCount int) {
+	if vt.LineCount() == 0 {
+		rep.fail("C14/heatmap/legend-missing", "no line 0 after the final render")
+		return
+	}
+	cfg := c.Cfg
+	raw := vt.Get(0)
+	v := visible(raw)
+	rest := strings.TrimLeft(v, " ")
+	indent := len(v) - len(rest)
+	if rest == "" {
+		rep.fail("C14/heatmap/legend-missing", "line 0 %q holds no legend after the final render", v)
+		return
+	}
+	tmin, tmax := counter.ComputeMinMax()
+	emin, emax := tmin, tmax
+	if cfg.FixMin {
+		emin = cfg.Min
+	}
+	if cfg.FixMax {
+		emax = cfg.Max
+	}
+	parts := strings.Split(rest, "    ")
+	entries := make([]legendEntry, 0, len(parts))
+	var glyphs []rune
+	for _, p := range parts {
+		rs := []rune(p)
+		if len(rs) < 3 || rs[1] != ' ' {
+			rep.fail("C14/heatmap/legend-malformed", "legend %q: entry %q is not 'cell blank number'", v, p)
+			return
+		}
+		e := legendEntry{tok: string(rs[2:]), idx: -1}
+		ok := false
+		if cfg.Format == "" {
+			e.val, ok = parseHi(e.tok)
+		} else {
+			e.val, e.mn, e.mx, ok = parseRefFormat(e.tok)
+		}
+		if !ok {
+			rep.fail("C14/heatmap/legend-number-not-under-chosen-formatter", "legend %q: %q is not a number as the chosen formatter (%s) prints it", v, e.tok, map[bool]string{true: "default", false: cfg.Format}[cfg.Format == ""])
+			return
+		}
+		if cfg.Format != "" && !(e.mn == emin && e.mx == emax) && !(e.mn == tmin && e.mx == tmax) {
+			rep.fail("C14/heatmap/legend-formatted-with-another-range", "legend %q: %q was formatted with (min %d, max %d); the cells are scaled with (min %d, max %d), the table's range is (%d, %d)", v, e.tok, e.mn, e.mx, emin, emax, tmin, tmax)
+			return
+		}
+		glyphs = append(glyphs, rs[0])
+		entries = append(entries, e)
+	}
+	if len(entries) > 6 {
+		rep.fail("C14/heatmap/legend-malformed", "legend %q has %d entries", v, len(entries))
+		return
+	}
+	idxs, ok := heatIndexes(raw, glyphs, cfg)
+	if !ok {
+		rep.fail("C14/heatmap/legend-malformed", "legend %q: the cells %q are not heat cells", raw, string(glyphs))
+		return
+	}
+	for i := range entries {
+		if idxs != nil {
+			entries[i].idx = idxs[i]
+		}
+	}
+	// legend and header of one frame are indented alike
+	if colCount >= 1 && !strings.HasPrefix(visible(cols[0]), " ") {
+		hdr := visible(vt.Get(1))
+		hIndent := len(hdr) - len(strings.TrimLeft(hdr, " "))
+		if hIndent != indent {
+			rep.fail("C14/heatmap/legend-indent-differs-from-header", "after the final render the legend starts in column %d, the column header in column %d", indent, hIndent)
+		}
+	}
+	rep.outcome = append(rep.outcome, "legend", fmt.Sprint(len(entries)))
+	if !legendTopRepresentable(cfg.Scale, emin, emax) {
+		return
+	}
+	for i := 1; i < len(entries); i++ {
+		if entries[i].val < entries[i-1].val {
+			rep.fail("C14/heatmap/legend-values-decrease", "legend %q: %d follows %d (range %d..%d)", v, entries[i].val, entries[i-1].val, emin, emax)
+			return
+		}
+		if entries[i].idx >= 0 && entries[i].idx < entries[i-1].idx {
+			rep.fail("C14/heatmap/legend-cells-not-monotone", "legend %q: the cell of %d is colder (%d) than the cell of %d (%d)", v, entries[i].val, entries[i].idx, entries[i-1].val, entries[i-1].idx)
+			return
+		}
+	}
+	if emin < emax {
+		lo := emin
+		if cfg.Scale != "linear" && cfg.Scale != "" && lo < 1 {
+			lo = 1 // a log scale draws everything <= 1 at the position of 1
+		}
+		first, last := entries[0].val, entries[len(entries)-1].val
+		// compared in float64 with a relative tolerance of 2^-45 of the magnitude
+		// of the ends: scale positions are float64 arithmetic (and logarithms), so
+		// beyond 2^48 the ends are only the nearest computable numbers
+		// (MinInt64..1 ends at 0, log2 of 0..2^49+1 ends at 2^49)
+		tol := (math.Abs(float64(emax)) + math.Abs(float64(emin))) * 0x1p-45
+		if float64(first) > float64(lo)+tol || float64(last) < float64(emax)-tol {
+			rep.fail("C14/heatmap/legend-does-not-cover-the-range", "legend %q runs from %d to %d, the cells are scaled with the range %d..%d (%s)", v, first, last, emin, emax, cfg.Scale)
+			return
+		}
+	}
+	// the probe: a fresh renderer with the same scale and the range pinned to the
+	// effective one (--min emin --max emax) draws a row whose cells are exactly
+	// the legend's values
+	if idxs == nil {
+		return
+	}
+	ptab := aggregation.NewTable("\x00")
+	for i, e := range entries {
+		ptab.Sample(join(itoa(i), "p", i64(e.val)))
+	}
+	pt := newRecTerm()
+	pw := termrenderers.NewHeatmap(pt, 1, len(entries))
+	pw.FixedMin, pw.FixedMax = true, true
+	pw.UpdateMinMax(emin, emax)
+	pw.Scaler = scalerOf(cfg)
+	pw.Formatter = formatterOf(cfg)
+	pw.WriteTable(ptab, sorterOf("numeric"), sorterOf("numeric"))
+	praw := pt.Get(2)
+	pv := strings.TrimLeft(strings.TrimPrefix(visible(praw), "p"), " ")
+	pidx, ok := heatIndexes(praw, []rune(pv), cfg)
+	if !ok || len(pidx) != len(entries) {
+		panic(fmt.Sprintf("harness: probe row %q does not hold %d cells", praw, len(entries)))
+	}
+	for i, e := range entries {
+		if pidx[i] != e.idx {
+			rep.fail("C14/heatmap/legend-cell-differs-from-the-cell-of-that-value", "legend %q shows cell %d next to %s; with --scale %s and the range %d..%d a table cell of value %d is drawn as cell %d", v, e.idx, e.tok, cfg.Scale, emin, emax, e.val, pidx[i])
+			return
+		}
 	}
 }
 
